@@ -32,6 +32,8 @@ class XRefNode(ConfigScalar(str)):
                 msg = f'Referenced node {str(curr)!r} is missing, while following a chain of references: {chain}'
                 raise ValueError(msg) from None
 
+            if str(curr) in chain[1:] or ref is self:
+                raise ValueError(f'Circular reference detected while following a chain of references: {chain + [str(curr)]}')
             chain.append(str(curr))
             curr = ref
         assert curr is not self
